@@ -50,6 +50,41 @@ def what(t, step):
     return "base %s, %s %s on vector %s: output %r" % (a["base"], a["assignment"], {f: a["prefs"][f] for f in a["set"]}, a["vector"], a["text"][:200])
 
 
+def file_rows(rows, tier, seed):
+    """statement slices of the sheets shipped with the repository x the assignments TLC enumerated that need no knowledge the
+    contract lacks for arbitrary sheets (validity table, selector/namespace table, literal keywords)"""
+    import glob, random, sys
+    sys.path.insert(0, "/repo")
+    from adapters import sheetast, prefs as ap
+    ap.init()
+    rng = random.Random(seed)
+    safe = [r for r in rows if r["base"] == "comments" and not r["prefs"]["validOnly"] and not r["prefs"]["keepUsedNamespaceRulesOnly"]
+            and r["prefs"]["defaultAtKeyword"] and r["prefs"]["defaultPropertyPriority"] and r["prefs"]["normalizedVarNames"]
+            and r["assignment"] != "pair"]
+    slices = []
+    for path in sorted(glob.glob("/repo/sheets/*.css")):
+        try:
+            text = open(path, "rb").read().decode("utf-8")
+            ap.neutral()
+            sheet = sheetast.parse(text)
+        except Exception:
+            continue
+        texts = [x.cssText for x in sheet.cssRules]
+        texts = [t for t in texts if t]
+        for i in range(0, len(texts), 6):
+            sl = "\n".join(texts[i:i + 6])
+            if "var(" in sl or "@variables" in sl or "|" in sl or "@namespace" in sl or len(sl) > 4000:
+                continue
+            slices.append((path.rsplit("/", 1)[-1], i, sl))
+    rng.shuffle(slices)
+    slices = slices[:40 if tier == "quick" else 400]
+    out = []
+    for name, i, sl in slices:
+        for a in rng.sample(safe, min(len(safe), 8 if tier == "quick" else 24)):
+            out.append(dict(a, base="file:%s#%d" % (name, i), ast=None, text=sl))
+    return out, len(slices)
+
+
 def main(tier, seed):
     run = Run("C06", tier, seed)
     cfg = os.path.join(run.work, "Prefs_%s.cfg" % tier)
@@ -61,7 +96,9 @@ def main(tier, seed):
     kinds = {}
     for r in rows:
         kinds[r["assignment"]] = kinds.get(r["assignment"], 0) + 1
-    traces = matrix.judge(run, "PrefsTrace", "adapters.prefs", "run_row", rows, sig, corrupt, what=what, chunk=300,
+    frows, nslices = file_rows(rows, tier, seed)
+    run.notes["file_slices"] = nslices
+    traces = matrix.judge(run, "PrefsTrace", "adapters.prefs", "run_row", rows + frows, sig, corrupt, what=what, chunk=300,
                  nontrivial=lambda t: t["item"]["text"] and json.dumps([t["item"]["src"], t["item"]["prefs"]], sort_keys=True),
                  sample_fmt=lambda t: {"base": t["item"]["base"], "set": {f: t["item"]["prefs"][f] for f in t["item"]["set"]}, "vector": t["item"]["vector"],
                                        "output": t["item"]["text"][:300]})
